@@ -16,7 +16,8 @@ RULE = ("[options reach the loop as the runner builds them: every case places ea
         "#[divan::bench] binary (hx-loop-e2e) is run through Divan::main with sample_count/sample_size/threads given on the command "
         "line, in DIVAN_* variables, by builder calls before config_with_args() (alone, or with one of the two overridden by the environment; builder n = 0) "
         "or in bench/bench_group attributes, incl. attribute/group-level min_time = 0 and max_time = 0, groups with a display name, on a raw-identifier module, "
-        "nested, and with sample_count = 0, benchmarks with args / types / consts with and without a Bencher parameter (1-4 thread counts per benchmark, n < T, default n, test mode); the run is started through main(), through "
+        "nested, and with sample_count = 0, benchmarks with args / types / consts with and without a Bencher parameter, extern \"C\"/\"system\" functions, sibling benchmarks "
+        "with different thread counts run in one process (1-4 thread counts per benchmark, n < T, default n, test mode); the run is started through main(), through "
         "test_benches()/run_benches() on the pre-configured default runner, or through the API on a runner configured from arguments for the OTHER action "
         "(the requested action decides); the "
         "samples and iters cells of every t=N row and the per-thread call counts logged by the benchmark body are compared with the model "
@@ -64,7 +65,7 @@ def streams(tier, rng):
         if base["n"] == "-" or int(base["n"]) > 14:
             base["n"] = rng.randrange(1, 12)
         aimed.extend(L.aim_budget(rng, base, rng.choice(["max", "max", "min"])))
-    e2e = L.e2e_cases(rng, 160 if not big else 500)
+    e2e = L.e2e_cases(rng, 185 if not big else 500)
     cut = L.tuned_cut_cases(rng, 150 if not big else 3000)
     return [
         L.make_stream("c03-corpus", "c03", L.corpus("C03")),
